@@ -12,8 +12,9 @@ def showPtr : Option Ptr → String
 
 def showObj (o : Obj) : String := if o.dead ≠ 0 then s!"X{o.dead}" else toString o.rc
 
-def dump (s : St) : String :=
-  "h=[" ++ ",".intercalate (s.h.map showPtr) ++ "] ; o=[" ++ ",".intercalate (s.o.map showObj) ++ "]"
+def dump (s0 s : St) : String :=
+  "h=[" ++ ",".intercalate (s.h.map showPtr) ++ "] ; o=[" ++ ",".intercalate (s.o.map showObj) ++
+  "] ; del=[" ++ ",".intercalate ((deleterCalls s0 s).map fun i => s!"o{i}") ++ "]"
 
 def parseOp (ts : List String) : Option Op :=
   match ts with
@@ -72,22 +73,44 @@ def stepConc (ts : List String) : Option String :=
       if n < 1 || n > 8 then none else some "destroyed=1"
   | _ => none
 
-def step (s : St) (ts : List String) : St × String :=
-  match ts with
-  | "conc" :: _ | "stress" :: _ =>
-      match stepConc ts with
-      | some out => (s, out)
-      | none => (s, "bad-op")
-  | _ =>
-    match parseOp ts with
-    | some op =>
-        if !op.wf s then (s, "bad-op") else
-        match TlxVerif.C12.step s op with
-        | .ok s' => (s', "ok ; " ++ dump s')
-        | .error e => (s, s!"MODEL-ERROR {e}")
-    | none =>
-        match query s ts with
-        | some r => (s, r ++ " ; " ++ dump s)
-        | none => (s, "bad-op")
+/-- driver state: the model state plus the protocol's per-case deleter mode -/
+structure DSt where
+  st : St := St.init
+  fresh : Bool := true          -- no operation yet in this case
+  dflt : Bool := true           -- the case uses the default deleter
 
-def main : IO Unit := Drv.loop St.init step
+def stepSeq (s : St) (ts : List String) : St × String :=
+  match parseOp ts with
+  | some op =>
+      if !op.wf s then (s, "bad-op") else
+      match TlxVerif.C12.step s op with
+      | .ok s' => (s', "ok ; " ++ dump s s')
+      | .error e => (s, s!"MODEL-ERROR {e}")
+  | none =>
+      match query s ts with
+      | some r => (s, r ++ " ; " ++ dump s s)
+      | none => (s, "bad-op")
+
+def step (d : DSt) (ts : List String) : DSt × String :=
+  match ts with
+  | "mode" :: rest =>
+      -- the Deleter type of the case: the model counts deleter invocations and is the same for all three;
+      -- accepted only as the first operation of a case, as in the harness
+      match rest with
+      | [m] =>
+        if (m = "default" || m = "counting" || m = "nodelete") && d.fresh
+        then ({ d with fresh := false, dflt := m = "default" }, "ok") else ({ d with fresh := false }, "bad-op")
+      | _ => ({ d with fresh := false }, "bad-op")
+  | "rawrace" :: _ =>
+      -- harness-only op (construction from a raw pointer of a not yet referenced object, see harness/c12.cpp)
+      ({ d with fresh := false }, if d.dflt then "n/a" else "bad-op")
+  | "conc" :: _ | "stress" :: _ =>
+      if !d.dflt then ({ d with fresh := false }, "bad-op") else
+      match stepConc ts with
+      | some out => ({ d with fresh := false }, out)
+      | none => ({ d with fresh := false }, "bad-op")
+  | _ =>
+      let (s', out) := stepSeq d.st ts
+      ({ d with st := s', fresh := false }, out)
+
+def main : IO Unit := Drv.loop ({} : DSt) step
